@@ -423,3 +423,53 @@ func IsTooLarge(err error) (level int, ok bool) {
 	}
 	return 0, false
 }
+
+// NullRoundTrip scans SQL NULL into the ewkb wrapper of the given kind, which
+// first holds g (a wrapper is reused from row to row), and reports what the
+// wrapper says afterwards: whether it is valid, the value it hands to a driver
+// and the error of either call.
+func NullRoundTrip(kind string, g geom.T) (valid bool, val driver.Value, err error) {
+	type wrapper interface {
+		Scan(any) error
+		Value() (driver.Value, error)
+		Valid() bool
+	}
+	var w wrapper
+	switch kind {
+	case mgeom.Pt:
+		x := &ewkb.Point{}
+		x.Point, _ = g.(*geom.Point)
+		w = x
+	case mgeom.LS:
+		x := &ewkb.LineString{}
+		x.LineString, _ = g.(*geom.LineString)
+		w = x
+	case mgeom.Pg:
+		x := &ewkb.Polygon{}
+		x.Polygon, _ = g.(*geom.Polygon)
+		w = x
+	case mgeom.MPt:
+		x := &ewkb.MultiPoint{}
+		x.MultiPoint, _ = g.(*geom.MultiPoint)
+		w = x
+	case mgeom.MLS:
+		x := &ewkb.MultiLineString{}
+		x.MultiLineString, _ = g.(*geom.MultiLineString)
+		w = x
+	case mgeom.MPg:
+		x := &ewkb.MultiPolygon{}
+		x.MultiPolygon, _ = g.(*geom.MultiPolygon)
+		w = x
+	case mgeom.GC:
+		x := &ewkb.GeometryCollection{}
+		x.GeometryCollection, _ = g.(*geom.GeometryCollection)
+		w = x
+	default:
+		return false, nil, fmt.Errorf("wkbadapt: no ewkb wrapper %q", kind)
+	}
+	if err := w.Scan(nil); err != nil {
+		return w.Valid(), nil, err
+	}
+	val, err = w.Value()
+	return w.Valid(), val, err
+}
